@@ -173,8 +173,16 @@ func driverBody(d *poolDriver) func(s *vsched.Sched) *vsched.ExecOutcome {
 				out = append(out, kind+":ok")
 			}
 		}
-		if d.End != nil && len(r.viol) == 0 {
-			d.End(w, r)
+		if d.End != nil {
+			panicked := false
+			for _, v := range r.viol {
+				if v.Rule == "C05.PANIC" {
+					panicked = true
+				}
+			}
+			if !panicked {
+				d.End(w, r)
+			}
 		}
 		sort.Strings(r.notes)
 		o := strings.Join(out, ",") + "|" + strings.Join(r.notes, ",")
@@ -352,6 +360,25 @@ func poolDrivers() []*poolDriver {
 				{name: "bound", fn: func() { c := w.rawPick("bound", "k1", latest, true, 0, false); note(r, c, "K"); c.complete("ok") }},
 				{name: "plain", fn: func() { c := w.rawPick("plain", "", latest, true, 0, false); note(r, c, "P"); c.complete("ok") }},
 				{name: "balancer", fn: func() { w.rawState(0, connectivity.Connecting); w.rawState(0, connectivity.Ready) }},
+			}
+		}})
+	// ---- fallback on two pickers: keyed picks for two keys whose home is down, on the latest and on a superseded picker ----
+	ds = append(ds, &poolDriver{Name: "fallback-two-pickers",
+		Cfg: poolCfg{Name: "fallback-two-pickers pool=2", Min: 2, Max: 2, WM: 100, Fallback: true,
+			Setup: append(readyPool(2), "pick(bind,,L,g)", "done(0,ok:k1+k2)", "state(1,IDLE)", "state(1,CONNECTING)", "state(1,READY)", "state(0,IDLE)")},
+		Threads: func(w *poolWorld, r *driverRun) []tprog {
+			latest := w.cc.latest()
+			// a superseded picker that still holds a READY channel other than the home
+			var stale *publication
+			for _, p := range w.cc.pubs {
+				if _, ok := p.picker.(*gcpPicker); ok && p != latest && len(p.ready) > 0 {
+					stale = p
+				}
+			}
+			return []tprog{
+				{name: "boundK1", fn: func() { c := w.rawPick("bound", "k1", latest, true, 0, false); note(r, c, "K1"); c.complete("ok") }},
+				{name: "boundK2", fn: func() { c := w.rawPick("bound", "k2", stale, true, 0, false); note(r, c, "K2"); c.complete("ok") }},
+				{name: "balancer", fn: func() { w.rawState(0, connectivity.Connecting) }},
 			}
 		}})
 	// ---- resolve-pick ----
